@@ -97,7 +97,8 @@ func genStream(srcRoot, rel string) string {
 // inner vector is overwritten by the outcome of a later one - and a point is written as exactly the bytes its own
 // Bytes / RawBytes method returned. Readers, writers and codecs are opaque calls whose error results are captured
 // at every call ("#*"); the loops carry "no failure so far". The slices-of-points cases of the decoder (parallel
-// recovery of Y) and the reflection fallback are not under contract.
+// recovery of Y: see the g1-points / g2-points variants below) are under contract as far as every iteration of the
+// recovery closure is concerned; the reflection fallback is not under contract.
 
 package %s
 
@@ -147,6 +148,27 @@ package %s
 			out.WriteString("//@ ensures[byte-counter] dec.n == old(dec.n) + total\n")
 		}
 		out.WriteString("//@ modifies dec, v\n//@ end\n\n")
+	}
+	// slices of points: the coordinates are read sequentially, then the Y coordinates of the compressed points are
+	// recovered and the subgroup checks made in a closure handed to parallel.Execute (executed as one range: option
+	// execute-as-range). Every iteration of that closure completes the point it is at - a compressed point goes
+	// through unsafeComputeY with the decoder's subgroup flag, any other point through IsInSubGroup when the flag is
+	// set - and every failure is counted in the counter the function tests afterwards.
+	for _, pv := range [][2]string{{"g1-points", "*[]G1Affine"}, {"g2-points", "*[]G2Affine"}} {
+		if !strings.Contains(src, "\tcase "+pv[1]+":") || !strings.Contains(src, "parallel.Execute(len(compressed), func(start, end int) {") {
+			continue
+		}
+		fmt.Fprintf(&out, "//@ func Decoder.Decode\n//@ variant %s\n//@ dyntype v %s\n%s//@ option opaque-calls\n//@ option nomerge\n//@ option struct-slices\n//@ option execute-as-range\n", pv[0], pv[1], layer)
+		out.WriteString("//@ ghost failed = false\n//@ ghost ydone = false\n//@ ghost sgdone = false\n//@ ghost cmp = false\n")
+		out.WriteString(streamCaptures([]string{"ReadFull", "readUint32", "setBytes", "unsafeSetCompressedBytes"}, false))
+		out.WriteString("//@ cut before call unsafeComputeY #*\n//@ + invariant[subgroup-flag] callarg1 == dec.subGroupCheck\n")
+		out.WriteString("//@ cut after call unsafeComputeY #*\n//@ + ghost failed = failed || !isnil(callresult)\n//@ + ghost ydone = true\n//@ + ghost sgdone = true\n")
+		out.WriteString("//@ cut after call IsInSubGroup #*\n//@ + ghost failed = failed || !callresult\n//@ + ghost sgdone = true\n")
+		out.WriteString(streamLoops(nDec))
+		out.WriteString("//@ inner *\n//@ loop 0\n//@ + ghost ydone = false\n//@ + ghost sgdone = false\n//@ + ghost-post cmp = compressed[i]\n")
+		out.WriteString("//@ + invariant[errors-counted] 0 <= i && i <= 1099511627776 && 0 <= nbErrs && nbErrs <= i && (failed ==> nbErrs > 0)\n")
+		out.WriteString("//@ + backedge[every-point-checked] (cmp ==> ydone) && (dec.subGroupCheck ==> sgdone)\n")
+		out.WriteString("//@ ensures[no-hidden-error] isnil(err) ==> !failed\n//@ modifies dec, v\n//@ end\n\n")
 	}
 	for _, fn := range []string{"encode", "encodeRaw"} {
 		hdr := "\nfunc (enc *Encoder) " + fn + "(v interface{}) (err error) {"
